@@ -15,19 +15,29 @@ GEOM = "odc.geo.geom"
 
 
 class _Seg:
+    """ASSUMED model of shapely LineString([p, q]): length = |q - p| and, for 0 <= d <= length,
+    interpolate(d) = p + d * e with e = (q - p) / length the unit vector of the segment
+    (stated with e so that every verification condition is polynomial: e.x^2 + e.y^2 = 1, e * length = q - p)"""
+
     def __init__(self, p, q):
         from pyvc import builtins_
 
         self.p, self.q = p, q
         dx, dy = q[0] - p[0], q[1] - p[1]
-        self.length = builtins_.m_sqrt(dx * dx + dy * dy)
+        L = builtins_.m_sqrt(dx * dx + dy * dy)
+        self.length = L
+        if symbolic():
+            ex, ey = Real().make("seg.ex"), Real().make("seg.ey")
+            assume(Implies(L > 0, And(ex * L == dx, ey * L == dy, ex * ex + ey * ey == 1)))
+        else:
+            ex, ey = (dx / L, dy / L) if L > 0 else (0.0, 0.0)
+        self.ex, self.ey = ex, ey
 
     def interpolate(self, d):
-        p, q, L = self.p, self.q, self.length
-        t = div(d, L)
+        p, ex, ey = self.p, self.ex, self.ey
 
         class _Pt:
-            coords = [(p[0] + t * (q[0] - p[0]), p[1] + t * (q[1] - p[1]))]
+            coords = [(p[0] + d * ex, p[1] + d * ey)]
 
         return _Pt()
 
@@ -46,25 +56,58 @@ def d2(a, b):
 PT = Tup(Real(), Real())
 
 
-def _inner_inv(new_coords, p1, p2, d, resolution, segment_length):
-    """state of the inner loop: the last emitted point sits on the edge at arc length d - res from p1"""
+# ---- two pure facts of plane geometry / real arithmetic, proved once (nlsat) and APPLIED in the loop invariants ------
+
+
+def _collinear_statement(px, py, ex, ey, a, b, x1, y1, x2, y2):
+    return Implies(
+        And(ex * ex + ey * ey == 1, x1 == px + a * ex, y1 == py + a * ey, x2 == px + b * ex, y2 == py + b * ey),
+        (x2 - x1) * (x2 - x1) + (y2 - y1) * (y2 - y1) == (b - a) * (b - a),
+    )
+
+
+stated_lemma(
+    "plane.collinear_distance",
+    ["C07"],
+    inputs=dict(px=Real(), py=Real(), ex=Real(), ey=Real(), a=Real(), b=Real(), x1=Real(), y1=Real(), x2=Real(), y2=Real()),
+    statement=_collinear_statement,
+    note="two points at arc lengths a and b along a unit direction e from p are |b - a| apart",
+)
+
+
+def _sq_mono_statement(x, y):
+    return Implies(And(0 <= x, x <= y), x * x <= y * y)
+
+
+stated_lemma("reals.square_monotone", ["C07"], inputs=dict(x=Real(), y=Real()), statement=_sq_mono_statement)
+
+
+def _inner_inv(new_coords, coords, p1, p2, d, resolution, segment_length, segment, _ks):
+    """state of the inner loop: the last emitted point sits on the edge at arc length a = d - res from p1"""
     n = seq_len(new_coords)
     last = seq_get(new_coords, n - 1, default=(0, 0))
     L = segment_length
     a = d - resolution  # arc length of the last emitted point
     return And(
         n >= 1,
-        seq_get(new_coords, 0, default=(0, 0))[0] == p1[0],
-        seq_get(new_coords, 0, default=(0, 0))[1] == p1[1],
-        d >= resolution,
+        n >= _ks[0] + 1,  # (no vertex is dropped: one output vertex per original vertex met so far)
+        # the first vertex of the whole line stays first
+        seq_get(new_coords, 0, default=(0, 0))[0] == coords[0][0],
+        seq_get(new_coords, 0, default=(0, 0))[1] == coords[0][1],
+        L == segment.length,
+        L > 0,
+        a >= 0,
         a < L,
-        L * L == d2(p1, p2),
-        L >= 0,
-        # last point = p1 + a/L (p2 - p1)   (written without division)
-        (last[0] - p1[0]) * L == a * (p2[0] - p1[0]),
-        (last[1] - p1[1]) * L == a * (p2[1] - p1[1]),
+        # last point = p1 + a e   (e the unit vector of the edge): on the edge, a multiple of the resolution along it
+        last[0] == p1[0] + a * segment.ex,
+        last[1] == p1[1] + a * segment.ey,
         # everything emitted so far is densely spaced
         forall(0, n - 1, lambda i: d2(seq_get(new_coords, i), seq_get(new_coords, i + 1)) <= resolution * resolution),
+        # lemma applications (facts, not obligations): distance from the last point to the NEXT point p1 + d e ...
+        use_lemma("plane.collinear_distance", px=p1[0], py=p1[1], ex=segment.ex, ey=segment.ey, a=a, b=d, x1=last[0], y1=last[1], x2=p1[0] + d * segment.ex, y2=p1[1] + d * segment.ey),
+        # ... and to the END of the edge p2 = p1 + L e, with (L - a)^2 <= res^2 once L - a <= res
+        use_lemma("plane.collinear_distance", px=p1[0], py=p1[1], ex=segment.ex, ey=segment.ey, a=a, b=L, x1=last[0], y1=last[1], x2=p2[0], y2=p2[1]),
+        use_lemma("reals.square_monotone", x=L - a, y=resolution),
     )
 
 
@@ -74,6 +117,29 @@ _shadow.LOOP_SPECS[f"{GEOM}:densify#1"] = LoopSpec(
     invariant=_inner_inv,
     havoc={"new_coords": SeqOf(PT, "list", min_len=1), "pt": PT},
     note="inner while loop of densify",
+)
+
+
+def _outer_inv(new_coords, coords, resolution, _k):
+    """before edge _k is processed: the output ends at vertex _k, starts at vertex 0, and is densely spaced"""
+    n = seq_len(new_coords)
+    last = seq_get(new_coords, n - 1, default=(0, 0))
+    first = seq_get(new_coords, 0, default=(0, 0))
+    return And(
+        n >= 1,
+        n >= _k + 1,  # no vertex is dropped: at least one output vertex per original vertex met so far
+        first[0] == coords[0][0],
+        first[1] == coords[0][1],
+        last[0] == seq_get(coords, _k, default=(0, 0))[0],
+        last[1] == seq_get(coords, _k, default=(0, 0))[1],
+        forall(0, n - 1, lambda i: d2(seq_get(new_coords, i), seq_get(new_coords, i + 1)) <= resolution * resolution),
+    )
+
+
+_shadow.LOOP_SPECS[f"{GEOM}:densify#0"] = LoopSpec(
+    invariant=_outer_inv,
+    havoc={"new_coords": SeqOf(PT, "list", min_len=1), "pt": PT},
+    note="outer for loop of densify over the edges (zip of the vertex list with itself shifted by one)",
 )
 
 
@@ -100,6 +166,33 @@ lemma(
     unstub=[f"{GEOM}:densify"],
     note="one edge in any direction and position (near the axes or far from them), any resolution, unbounded number of inserted points (loop invariant). "
     "The invariant also states that each inserted point is p1 + a/L (p2 - p1) with a a multiple of the resolution in (0, L): it lies on the edge",
+)
+
+
+def _polyline_body(coords, resolution):
+    m = repo(GEOM)
+    saved = m.geometry
+    try:
+        m.geometry = _GeometryModel
+        out = m.densify(coords, resolution)
+    finally:
+        m.geometry = saved
+    n = seq_len(out)
+    nc = seq_len(coords)
+    first, last = seq_get(out, 0), seq_get(out, n - 1)
+    claim(n >= nc, "no vertex is dropped: at least as many vertices as the input")
+    claim(And(first[0] == coords[0][0], first[1] == coords[0][1]), "the first vertex is kept")
+    claim(And(last[0] == seq_get(coords, nc - 1)[0], last[1] == seq_get(coords, nc - 1)[1]), "the last vertex is kept")
+    claim(forall(0, n - 1, lambda i: d2(seq_get(out, i), seq_get(out, i + 1)) <= resolution * resolution), "no edge of the densified line is longer than the resolution")
+
+
+lemma(
+    "densify.polyline",
+    ["C07"],
+    inputs=dict(coords=SeqOf(PT, "list", min_len=2), resolution=Real(gt=0)),
+    body=_polyline_body,
+    unstub=[f"{GEOM}:densify"],
+    note="a polyline with ANY number of vertices (outer loop invariant) and any number of inserted points per edge (inner loop invariant)",
 )
 
 
